@@ -16,7 +16,7 @@ use crate::doc::{canonical, gen_rpc_error_with_extras, RpcErr, E, NS};
 use crate::ev;
 use crate::ssim::{drive, hello_with, Quiescence, SchedCfg, Server, SimTransport, CAP_BASE10, CAP_CANDIDATE, CAP_JUNOS, MARKER};
 
-pub const OPS: [&str; 6] = ["lock", "get", "open-configuration", "close-configuration", "load-configuration", "commit-configuration"];
+pub const OPS: [&str; 7] = ["lock", "get", "open-configuration", "close-configuration", "load-configuration", "commit-configuration", "close-session"];
 
 #[derive(Clone, Debug)]
 enum Item {
@@ -44,7 +44,8 @@ struct Case {
 fn gen_case(ctx: &mut Ctx) -> Case {
     let op = ctx.pick(OPS.len());
     let others = ctx.tape.weighted(&[4, 2, 1, 1]);
-    let position = ctx.pick(others + 1);
+    // <close-session> can only be issued through Session::close(), which takes the session: it is the last request
+    let position = if op == 6 { others } else { ctx.pick(others + 1) };
     let mut uniq = 0;
     let mut last: Option<RpcErr> = None;
     let mut err = |ctx: &mut Ctx| {
@@ -64,7 +65,7 @@ fn gen_case(ctx: &mut Ctx) -> Case {
     // typical shapes first (small tape values), free-form sequences otherwise
     let shape = ctx.tape.weighted(&[2, 2, 2, 6]);
     let positive = |op: usize| match op {
-        0 | 5 => Some(Item::Ok),
+        0 | 5 | 6 => Some(Item::Ok),
         1 => Some(Item::Data),
         4 => Some(Item::Load(vec![LoadItem::Ok])),
         _ => None,
@@ -235,8 +236,8 @@ fn run(ctx: &mut Ctx) -> Verdict {
             Box::pin(async move {
                 let case = case2;
                 let net2 = net.clone();
-                let mut s = match Session::verif_new(SimTransport(net)).await {
-                    Ok(s) => s,
+                let mut session = match Session::verif_new(SimTransport(net)).await {
+                    Ok(s) => Some(s),
                     Err(e) => {
                         seen2.lock().unwrap().push((usize::MAX, Seen::OtherErr(format!("session: {e:?}"))));
                         return;
@@ -245,6 +246,7 @@ fn run(ctx: &mut Ctx) -> Verdict {
                 type F = std::pin::Pin<Box<dyn std::future::Future<Output = Seen> + Send>>;
                 let mut futs: Vec<(usize, bool, F)> = Vec::new();
                 for k in 0..=case.others {
+                    let Some(s) = session.as_mut() else { break };
                     if k != case.position {
                         if Some(k) == orphan {
                             net2.lock().unwrap().send_after.push_back(usize::MAX);
@@ -269,7 +271,11 @@ fn run(ctx: &mut Ctx) -> Verdict {
                             .rpc::<LoadConfiguration<_>, _>(|b| b.source(Config::new(Opaque::from("<configuration/>"), Xml, Merge)).finish())
                             .await
                             .map(|f| Box::pin(async move { classify(f.await) }) as F),
-                        _ => s.rpc::<CommitConfiguration, _>(|b| b.finish()).await.map(|f| Box::pin(async move { classify(f.await) }) as F),
+                        5 => s.rpc::<CommitConfiguration, _>(|b| b.finish()).await.map(|f| Box::pin(async move { classify(f.await) }) as F),
+                        _ => match session.take() {
+                            Some(owned) => owned.close().await.map(|f| Box::pin(async move { classify(f.await) }) as F),
+                            None => break,
+                        },
                     };
                     match f {
                         Ok(f) => futs.push((k, true, f)),
@@ -331,7 +337,7 @@ fn run(ctx: &mut Ctx) -> Verdict {
     }
     let has_error = all.iter().any(|e| e.is_error);
     let positive = match case.op {
-        0 | 5 => case.items.iter().any(|i| matches!(i, Item::Ok)),
+        0 | 5 | 6 => case.items.iter().any(|i| matches!(i, Item::Ok)),
         1 => case.items.iter().any(|i| matches!(i, Item::Data)),
         2 | 3 => true,
         _ => case.items.iter().any(|i| matches!(i, Item::Load(l) if l.iter().any(|li| matches!(li, LoadItem::Ok)))),
@@ -372,7 +378,7 @@ pub static C08: PropSpec = PropSpec {
     runs: |t| if t == Tier::Thorough { 30_000_000 } else { 200_000 },
     enumerated: |_| 0,
     run,
-    rule: "one request of each reply type (lock, get, open-/close-configuration, load-configuration, commit-configuration) among 0-3 other outstanding requests, replies delivered in order or permuted and reply futures awaited in a seeded order; in one run of six the send of one of the other requests reports an I/O error after its bytes went out (the caller gives it up and carries on; the server answers it with the positive reply of the operation under test, which must not be taken for the reply to a later request); the server's reply is generated from the reply grammar: 0-4 rpc-error elements (all types/tags, severity error/warning, optional children; one in six repeats the previous element field for field; one in six with a vendor child such as Junos's <source-daemon> or an open-ended error-info child, which the library's reader may refuse - the reply must then still not be a success and no error may vanish from the reported list) and positive indications in every order, at top level or inside load-configuration-results with consistent or inconsistent load-error-count. Non-trivial = the document contains at least one rpc-error; distinct = distinct event-log hash (includes the generated document)",
+    rule: "one request of each reply type (lock, get, open-/close-configuration, load-configuration, commit-configuration, and close-session through Session::close() as the last request) among 0-3 other outstanding requests, replies delivered in order or permuted and reply futures awaited in a seeded order; in one run of six the send of one of the other requests reports an I/O error after its bytes went out (the caller gives it up and carries on; the server answers it with the positive reply of the operation under test, which must not be taken for the reply to a later request); the server's reply is generated from the reply grammar: 0-4 rpc-error elements (all types/tags, severity error/warning, optional children; one in six repeats the previous element field for field; one in six with a vendor child such as Junos's <source-daemon> or an open-ended error-info child, which the library's reader may refuse - the reply must then still not be a success and no error may vanish from the reported list) and positive indications in every order, at top level or inside load-configuration-results with consistent or inconsistent load-error-count. Non-trivial = the document contains at least one rpc-error; distinct = distinct event-log hash (includes the generated document)",
     components: &[
         ("netconf session + message readers (rpc/mod.rs, rpc/error.rs, junos/mod.rs, junos/load_configuration.rs)", "real"),
         ("transport", "stub: in-memory"),
